@@ -212,6 +212,15 @@ def run(ctx):
     # switches every combiner (shared with C11)
     from .c11 import options_reach_every_layer
     options_reach_every_layer(ctx, 'R03f', only=('SuperNet',))
+    # ... each option whenever it is given, whatever else is given in the same call (every
+    # store of update_softmax_options is decided by its own option only: C11's rule)
+    from . import c11
+    before = len(ctx.obligations)
+    c11.r11c(ctx)
+    for o in ctx.obligations[before:]:
+        if 'SuperNet' in o.construct:
+            o.rule = 'R03f'
+    ctx.obligations[before:] = [o for o in ctx.obligations[before:] if o.rule == 'R03f']
     r03h(ctx)
     r03i(ctx)
     repo = ctx.repo
